@@ -143,25 +143,7 @@ def check(run, prefix="O5"):
             t = c.body.operand_term(c.args[0])
             o.check(K.mentions(t, lambda x: x[0] == "variant" and x[2] == ev), key + "|event-slot", "votes on the slot carried by the event", c.span, {"arg0": mir.show(t)})
 
-    # should_ignore_pool_event: structural table
-    sib = prog.body(VOTOR + "Votor::should_ignore_pool_event")
-    if sib is None:
-        o.missing("Votor::should_ignore_pool_event")
-    else:
-        table = ignore_table(prog, sib)
-        want = {
-            "Standstill": ("never ignored", lambda lt, rt: False),
-            "CertCreated": ("ignored exactly when slot < first_unpruned_slot()", lambda lt, rt: lt),
-            "ParentReady": ("ignored exactly when pruned or retired", lambda lt, rt: lt or rt),
-            "SafeToNotar": ("ignored exactly when pruned or retired", lambda lt, rt: lt or rt),
-            "SafeToSkip": ("ignored exactly when pruned or retired", lambda lt, rt: lt or rt),
-        }
-        for v, (name, fn) in want.items():
-            got = table.get(v)
-            exp = {(lt, rt): bool(fn(lt, rt)) for lt in (False, True) for rt in (False, True)}
-            o.check(got == exp, "consensus::votor::Votor::should_ignore_pool_event|%s" % v,
-                    "should_ignore_pool_event(%s): %s (truth table over the two conditions)" % (v, name), sib.span,
-                    {"got": {"lt=%s,retired=%s" % k: x for k, x in got.items()} if got else None})
+    _ignore_table_checks(prog, o)
 
     # ------------------------------------------------------------------ O5.5 writers
     o = run.ob(P + ".5", "per-slot voting flags are written only by the functions entitled to",
@@ -349,3 +331,32 @@ def ignore_table(prog, body):
         out[v] = fn if ok else None
     return out
 
+
+
+def _ignore_table_checks(prog, o):
+    sib = prog.body(VOTOR + "Votor::should_ignore_pool_event")
+    if sib is None:
+        o.missing("Votor::should_ignore_pool_event")
+        return
+    table = ignore_table(prog, sib)
+    want = {
+        "Standstill": ("never ignored", lambda lt, rt: False),
+        "CertCreated": ("ignored exactly when slot < first_unpruned_slot()", lambda lt, rt: lt),
+        "ParentReady": ("ignored exactly when pruned or retired", lambda lt, rt: lt or rt),
+        "SafeToNotar": ("ignored exactly when pruned or retired", lambda lt, rt: lt or rt),
+        "SafeToSkip": ("ignored exactly when pruned or retired", lambda lt, rt: lt or rt),
+    }
+    for v, (name, fn) in want.items():
+        got = table.get(v)
+        exp = {(lt, rt): bool(fn(lt, rt)) for lt in (False, True) for rt in (False, True)}
+        o.check(got == exp, "consensus::votor::Votor::should_ignore_pool_event|%s" % v,
+                "should_ignore_pool_event(%s): %s (truth table over the two conditions)" % (v, name), sib.span,
+                {"got": {"lt=%s,retired=%s" % k: x for k, x in got.items()} if got else None})
+
+
+def ob_stale_events(run, oid):
+    """stand-alone form (used by C10): the stale-event filter the Votor's asserts on `slot >= first_unpruned_slot()` rely on"""
+    prog = run.program("lib")
+    o = run.ob(oid, "Votor drops pool events for pruned slots before acting on them (truth table of should_ignore_pool_event per event kind)",
+               "try_final / try_notar / state_mut assert slot >= first_unpruned_slot(): an event for a pruned slot that is not dropped first kills the voting task", floor=5)
+    _ignore_table_checks(prog, o)
